@@ -59,14 +59,25 @@ theorem runSteps_total {α β : Type} (f : α → Step β) :
     | skip => exact ⟨out, by simpa using ho⟩
     | emit b => exact ⟨b :: out, by simp [ho]⟩
 
+/-- what one loop iteration must satisfy: an emitted call reads as the gate's operation, and
+only gates without an operation (nops) are skipped -/
+def Step.reads {β γ : Type} (ob : β → Option γ) (tgt : Option γ) : Step β → Prop
+  | .emit b => ob b = tgt
+  | .skip => tgt = none
+  | .fail _ => True
+
+theorem filterMap_congr_mem {α β : Type} {f g : α → Option β} :
+    ∀ (l : List α), (∀ a ∈ l, f a = g a) → l.filterMap f = l.filterMap g
+  | [], _ => rfl
+  | a :: l, h => by
+    have ih := filterMap_congr_mem l (fun x hx => h x (List.mem_cons_of_mem _ hx))
+    simp [List.filterMap_cons, h a (List.mem_cons_self ..), ih]
+
 /-- the translation scheme shared by the three object exporters: if every emitted call reads as
 the gate's operation and only nop gates are skipped, the exported list reads as the circuit -/
 theorem runSteps_translate {α β γ : Type} (f : α → Step β) (oa : α → Option γ) (ob : β → Option γ)
     (gs : List α) (out : List β)
-    (hstep : ∀ g ∈ gs, match f g with
-      | .emit b => ob b = oa g
-      | .skip => oa g = none
-      | .fail _ => True)
+    (hstep : ∀ g ∈ gs, (f g).reads ob (oa g))
     (h : runSteps f gs = .ok out) : out.filterMap ob = gs.filterMap oa := by
   induction gs generalizing out with
   | nil =>
@@ -80,10 +91,10 @@ theorem runSteps_translate {α β γ : Type} (f : α → Step β) (oa : α → O
     split at h
     · cases h
     · rename_i hs
-      simp [hs] at ha
+      simp [hs, Step.reads] at ha
       simp [List.filterMap_cons, ha, ih out hrest h]
     · rename_i b hs
-      simp [hs] at ha
+      simp [hs, Step.reads] at ha
       split at h
       · cases h
       · rename_i bs hr
@@ -527,5 +538,20 @@ theorem indexOfName_get : ∀ (l : List Text) (i : Nat) (h : i < l.length), l.No
     have ih := indexOfName_get fs i hi hnd'.2
     have hne : f ≠ fs[i] := fun e => hnd'.1 (e ▸ List.getElem_mem hi)
     simp [indexOfName, hne, ih]
+
+theorem qiskitStep_reads (q : Quirks) (fv : FloatOf) (gm : Bool) (n : Nat) (g : AGate)
+    (hwf : gateWF fv n g = true) : (qiskitStep q fv gm g).reads QkCall.op (gateOp g) := by
+  have := qiskitStep_op q fv gm n g hwf
+  cases h : qiskitStep q fv gm g <;> simp [h, Step.reads] at this ⊢ <;> exact this
+
+theorem cirqStep_reads (q : Quirks) (fv : FloatOf) (n : Nat) (g : AGate)
+    (hwf : gateWF fv n g = true) : (cirqStep q g).reads CqOp.op (gateOp g) := by
+  have := cirqStep_op q fv n g hwf
+  cases h : cirqStep q g <;> simp [h, Step.reads] at this ⊢ <;> exact this
+
+theorem sympyStep_reads (fv : FloatOf) (n : Nat) (g : AGate)
+    (hwf : gateWF fv n g = true) : (sympyStep g).reads SyGate.op (gateOp g) := by
+  have := sympyStep_op fv n g hwf
+  cases h : sympyStep g <;> simp [h, Step.reads] at this ⊢ <;> exact this
 
 end QV.Export
